@@ -9,6 +9,7 @@ import (
 	"github.com/SAP/go-dblib/asetypes"
 	"github.com/SAP/go-dblib/tds"
 	"verifharness/pk"
+	"verifharness/sx"
 )
 
 const (
@@ -539,6 +540,34 @@ func Generate(g *pk.Gen, prop string) {
 			sc.Retry = first
 			job(sc, g.Rng.Intn(3))
 		}
+		// the DEFAULT configuration (tds.NewLoginConfig) of every kind of connection description: TLS on / off, validation
+		// skipped, debug logging, ports, networks ... - the encrypted flow, whatever the description says
+		nd := 40
+		if g.Thorough {
+			nd = 1 << InfoBits
+		}
+		for i := 0; i < nd; i++ {
+			mask := g.Rng.Intn(1 << InfoBits)
+			if i < InfoBits {
+				mask = 1 << i
+			} else if g.Thorough {
+				mask = i
+			}
+			e := enc{bits[0], PemOf(Key(bits[0]), "RSA PUBLIC KEY"), g.Rng.Bytes(32)}
+			cfg := randCfg(g, msgEncrypt4, 40)
+			cfg.InfoMask = mask + 1
+			job(mk(validEnc(e), cfg, &e, fmt.Sprintf("secret-default-config;info=%d", mask)), g.Rng.Intn(3))
+		}
+		for mask := 0; mask < 1<<InfoBits; mask++ {
+			lc, err := tds.NewLoginConfig(InfoOf(mask))
+			enc := -1
+			if err == nil {
+				enc = int(lc.Encrypt)
+			}
+			if g.WantTag("default-config") {
+				g.Out.Case(33, sx.L{sx.I(int64(mask))}, sx.L{sx.I(int64(enc))}, "default-config")
+			}
+		}
 		// control: the plain flow sends the password in its slot
 		for i := 0; i < 30; i++ {
 			job(mk(validPlain(), randCfg(g, 0, 30), nil, "control-plain"), g.Rng.Intn(3))
@@ -577,6 +606,20 @@ func WriteGen(path string) {
 	z("g_tok_loginack", int(tds.TDS_LOGINACK))
 	z("g_tok_msg", int(tds.TDS_MSG))
 	z("g_tok_capability", int(tds.TDS_CAPABILITY))
+	// the password mode of the default configuration, per kind of connection description (lg.InfoOf)
+	b.WriteString("Definition g_default_encrypt : list (Z * Z) := [")
+	for mask := 0; mask < 1<<InfoBits; mask++ {
+		lc, err := tds.NewLoginConfig(InfoOf(mask))
+		enc := -1
+		if err == nil {
+			enc = int(lc.Encrypt)
+		}
+		if mask > 0 {
+			b.WriteString("; ")
+		}
+		fmt.Fprintf(&b, "(%d, %d)", mask, enc)
+	}
+	b.WriteString("].\n")
 	// the capability package a fresh connection sends with the login record
 	conn, err := tds.VerifNewConn(context.Background(), &tds.Info{}, &peer{}, false)
 	if err != nil {
